@@ -284,7 +284,7 @@ enum MsgColor {
 }
 
 fn file_message(color: MsgColor, left: &str, right: &PathBuf) {
-    let right = format!("target {}", right.to_str().unwrap());
+    let right = format!("target {}", right.display());
     message(color, left, &right);
 }
 
